@@ -66,7 +66,15 @@ func runHistoryGo(kp *KeyPair, nu0 *big.Int, time0 int64, steps []any) string {
 			out = append(out, "witness-ok")
 		case "mkupdate":
 			from, to := st.int("from"), st.int("to")
-			u, err := revocation.NewUpdate(kp.sk, h.accs[to], append([]*revocation.Event{}, h.events[from:to+1]...))
+			acc := h.accs[to]
+			if st.boolean("badnu") {
+				// issuer-signed accumulator whose value does not match its events
+				bad := *acc
+				bad.Nu = new(big.Int).Mul(acc.Nu, bi(4))
+				bad.Nu.Mod(bad.Nu, kp.pk.N)
+				acc = &bad
+			}
+			u, err := revocation.NewUpdate(kp.sk, acc, append([]*revocation.Event{}, h.events[from:to+1]...))
 			if err != nil {
 				return "mkupdate-failed " + err.Error()
 			}
@@ -74,6 +82,11 @@ func runHistoryGo(kp *KeyPair, nu0 *big.Int, time0 int64, steps []any) string {
 			u.SignedAccumulator = &revocation.SignedAccumulator{Data: u.SignedAccumulator.Data, PKCounter: u.SignedAccumulator.PKCounter}
 			h.updates[st.str("u")] = u
 			out = append(out, "update-ok")
+		case "corruptw":
+			w := h.witnesses[st.str("w")]
+			w.U = new(big.Int).Add(w.U, bi(1))
+			w.U.Mod(w.U, kp.pk.N)
+			out = append(out, "corrupt-ok")
 		case "clonew":
 			src := h.witnesses[st.str("from")]
 			c := *src
@@ -111,8 +124,9 @@ func init() {
 
 // abstract specification: what each step must report, from the revoked set and indices alone.
 type specWitness struct {
-	e     string
-	index int
+	e       string
+	index   int
+	corrupt bool
 }
 
 type histBuilder struct {
@@ -121,11 +135,12 @@ type histBuilder struct {
 	es     []string // event values by index (index 0: "1")
 	wit    map[string]*specWitness
 	upd    map[string][2]int
+	badupd map[string]bool
 	time   int64
 }
 
 func newHistBuilder() *histBuilder {
-	return &histBuilder{es: []string{"1"}, wit: map[string]*specWitness{}, upd: map[string][2]int{}, time: 1000}
+	return &histBuilder{es: []string{"1"}, wit: map[string]*specWitness{}, upd: map[string][2]int{}, badupd: map[string]bool{}, time: 1000}
 }
 
 func (b *histBuilder) revoke(e *big.Int) {
@@ -136,13 +151,24 @@ func (b *histBuilder) revoke(e *big.Int) {
 }
 func (b *histBuilder) witness(id string, e *big.Int) {
 	b.steps = append(b.steps, map[string]any{"t": "witness", "w": id, "e": hx(e)})
-	b.wit[id] = &specWitness{e.Go().Text(16), len(b.es) - 1}
+	b.wit[id] = &specWitness{e: e.Go().Text(16), index: len(b.es) - 1}
 	b.expect = append(b.expect, "witness-ok")
 }
 func (b *histBuilder) mkupdate(id string, from, to int) {
 	b.steps = append(b.steps, map[string]any{"t": "mkupdate", "u": id, "from": from, "to": to})
 	b.upd[id] = [2]int{from, to}
 	b.expect = append(b.expect, "update-ok")
+}
+func (b *histBuilder) mkbadupdate(id string, from, to int) {
+	b.steps = append(b.steps, map[string]any{"t": "mkupdate", "u": id, "from": from, "to": to, "badnu": true})
+	b.upd[id] = [2]int{from, to}
+	b.badupd[id] = true
+	b.expect = append(b.expect, "update-ok")
+}
+func (b *histBuilder) corrupt(w string) {
+	b.steps = append(b.steps, map[string]any{"t": "corruptw", "w": w})
+	b.wit[w].corrupt = true
+	b.expect = append(b.expect, "corrupt-ok")
 }
 func (b *histBuilder) clone(from, to string) {
 	b.steps = append(b.steps, map[string]any{"t": "clonew", "from": from, "to": to})
@@ -167,17 +193,20 @@ func (b *histBuilder) apply(w, u string) {
 				revoked = true
 			}
 		}
-		if revoked {
+		switch {
+		case revoked:
 			res = "revoked"
-		} else {
+		case sw.corrupt || b.badupd[u]:
+			res = "err" // the final check u'^e = nu' fails: the witness must stay exactly as it was
+		default:
 			sw.index = to
 		}
 	}
-	b.expect = append(b.expect, fmt.Sprintf("%s:%d:true", res, sw.index))
+	b.expect = append(b.expect, fmt.Sprintf("%s:%d:%v", res, sw.index, !sw.corrupt))
 }
 func (b *histBuilder) verifyw(w string) {
 	b.steps = append(b.steps, map[string]any{"t": "verifyw", "w": w})
-	b.expect = append(b.expect, fmt.Sprintf("true:%d", b.wit[w].index))
+	b.expect = append(b.expect, fmt.Sprintf("%v:%d", !b.wit[w].corrupt, b.wit[w].index))
 }
 
 func (b *histBuilder) op(kp *KeyPair, nu0 *big.Int, class string) Op {
@@ -286,6 +315,23 @@ func genC09(g *Rng, tier string, emit func(Op)) {
 						}
 						b.verifyw(tmp)
 					}
+				}
+				// updates that pass every check except the final u'^e = nu': an invalid witness, or an
+				// issuer-signed accumulator inconsistent with its events; followed by honest updates
+				b.mkbadupdate("ubad", 1, nrev)
+				for i := 0; i <= nrev; i++ {
+					t1, t2 := fmt.Sprintf("c%d", i), fmt.Sprintf("d%d", i)
+					b.clone(fmt.Sprintf("w%d", i), t1)
+					b.corrupt(t1)
+					for _, u := range wins {
+						b.apply(t1, u)
+					}
+					b.verifyw(t1)
+					b.clone(fmt.Sprintf("w%d", i), t2)
+					b.apply(t2, "ubad")
+					b.verifyw(t2)
+					b.apply(t2, wins[len(wins)-1])
+					b.verifyw(t2)
 				}
 				emit(b.op(kp, nu0, fmt.Sprintf("exhaustive-nrev%d", nrev)))
 			}
